@@ -10,6 +10,8 @@ def spec_scenarios(ctx):
     ctx.design("Txn", "Txn_nobump.cfg", timeout=900, tag="txn_nobump")
     m = ctx.tlc("Txn", "Txn_mut.cfg", workers=4, timeout=600, tag="txn_mut", allow_fail=True)
     ctx.notes["design_mutant_failed_producer_id_not_reloaded_rejected"] = "is violated" in m.out
+    m = ctx.tlc("Txn", "Txn_mut2.cfg", workers=4, timeout=600, tag="txn_mut2", allow_fail=True)
+    ctx.notes["design_mutant_no_abort_after_attempted_produces_rejected"] = "is violated" in m.out
     m = ctx.tlc("Txn", "Txn_twofaults.cfg", workers=4, timeout=600, tag="txn_two", allow_fail=True)
     ctx.notes["design_two_faults_on_one_EndTxn_unknowable_outcome_shown"] = "AbortMeansNever is violated" in m.out
     out = []
@@ -21,10 +23,14 @@ def spec_scenarios(ctx):
             txns, cur = [], None
             for e in h["hist"]:
                 if e["op"] == "begin":
-                    cur = {"n": 0, "commit": True, "faults": [], "produceGap": False}
+                    cur = {"n": 0, "commit": True, "faults": [], "produceGap": False, "kinds": []}
                     txns.append(cur)
                 elif e["op"] == "produce" and e["ok"]:
                     cur["n"] += 1
+                    cur["kinds"].append("ok")
+                elif e["op"] == "produce" and e.get("ghost"):
+                    cur["n"] += 1
+                    cur["kinds"].append("ghost")   # appended by the broker, reported as failed to the client
                 elif e["op"] == "produce":
                     cur["produceGap"] = True
                 elif e["op"] == "end":
